@@ -28,6 +28,11 @@ theorem rank_cases_are_code (dims : Nat → Nat) (r : Int) :
          (4, (dims 2 : Int), (dims 1 : Int), [r, 0, 0, 0], [1, (dims 1 : Int), (dims 2 : Int), (dims 2 : Int)])]
     ∧ Gen.H5Read.fillingOfLoaded = ["1"] ∧ Gen.H5Read.sizeTest = "nxyb == selected" := ⟨rfl, rfl, rfl⟩
 
+/-- the loaded phase space gets the box and the length / energy scales the CURRENT run computed (`bl`, `dE` of main()),
+    not anything stored in the file: every unit factor of the continued run's results file belongs to its own parameters -/
+theorem loaded_grid_uses_current_scales :
+    Gen.H5Read.loadedCtorArgs = ["qmin", "qmax", "bl", "pmin", "pmax", "dE", "oclh", "Qb", "Ib_unscaled", "filling", "1"] := rfl
+
 /-! ### which record is loaded -/
 
 /-- a non-negative `StartDistStep` below the number of records selects that record -/
